@@ -429,7 +429,7 @@ fn function_to_doc<'a>(
     Doc::line(
         Doc::text(format!(
             "{}{}{}{}fn {}",
-            public, entry, original_entry, fallback, function.name
+            public, original_entry, entry, fallback, function.name
         ))
         .append(
             function
